@@ -1253,3 +1253,218 @@ class CollectProducers(Kernel):
 
 
 KERNELS += [CollectProducers]
+
+
+# ------------------------------------------------------------------ NodeRuntimeRegistry::schema_equivalent (node.cpp)
+#
+# Below the wiring-level interning, runtime node *types* are canonicalised: make_type answers a request with an already
+# registered type when schema_equivalent says the two descriptors are the same.  A descriptor member left out of that
+# comparison lets two wirings that differ only in it run with whichever descriptor was registered first, so statement
+# order shows in the outputs (C06).  The member list is read from the struct each run; `header` is the intern identity
+# that the registry itself assigns and is the one member not compared.
+
+TU_NODE = "src/hgraph/runtime/node.cpp"
+SCHEMA_IDENTITY_MEMBERS = ("header",)
+
+
+class NameView(Obj):
+    """std::string_view built from display_name (or from the literal "")"""
+    cls = "std::string_view"
+
+    def __init__(self, k, side):
+        Obj.__init__(self, name="name_view")
+        self.k, self.side = k, side          # side None: the empty literal
+
+    def op(self, I, op, rest, n, a0):
+        if op not in ("==", "!="):
+            return NotImplemented
+        o = I.ctx.rv(rest[0])
+        if not isinstance(o, NameView):
+            raise Gap("name compared with %r" % (o,))
+        k = self.k
+        if self.side is None and o.side is None:
+            e = z3.BoolVal(True)
+        elif self.side is None or o.side is None:
+            e = k.name_empty[self.side or o.side]
+        elif self.side == o.side:
+            e = z3.BoolVal(True)
+        else:
+            e = k.name_eq
+        return e if op == "==" else z3.Not(e)
+
+
+class MetaField(FieldTok):
+    custom_binop = True
+
+    def binop(self, I, op, other):
+        if op not in ("==", "!="):
+            raise Gap("operator %s on descriptor member %s" % (op, self.fname))
+        null = other is None or (isinstance(other, Ptr) and other.target is None) or \
+            (z3.is_expr(other) and z3.is_int_value(other) and other.as_long() == 0)
+        if null:
+            if self.fname != "display_name":
+                raise Gap("descriptor member %s compared with nullptr" % self.fname)
+            e = self.k.name_null[self.side]
+        else:
+            e = self.eq(other)
+        return e if op == "==" else z3.Not(e)
+
+    def rbinop(self, I, op, other):
+        return self.binop(I, op, other)
+
+
+class MetaObj(Obj):
+    cls = "NodeTypeMetaData"
+
+    def __init__(self, k, side):
+        Obj.__init__(self, name="meta_" + side)
+        self.k, self.side = k, side
+
+    def member(self, ctx, name, node):
+        return MetaField(self.k, name, self.side)
+
+
+class SchemaEquivalent(Kernel):
+    name = "node.cpp:NodeRuntimeRegistry::schema_equivalent"
+    tu = TU_NODE
+    filter = "NodeRuntimeRegistry"
+    cls = "NodeRuntimeRegistry"
+    fn_name = "schema_equivalent"
+    property_ids = ("C06",)
+    scope = {"lo": 0, "hi": 2}
+    title = "schema_equivalent: two runtime node descriptors share one canonical type only when every member agrees " \
+            "(member list read from the struct each run)"
+    extra_dumps = ((TU_NODE, "NodeTypeMetaData"),)
+
+    def locate(self, dumps):
+        fn = Kernel.locate(self, dumps)
+        recs = extract.find_record(dumps[(TU_NODE, "NodeTypeMetaData")], "NodeTypeMetaData")
+        if not recs:
+            raise Gap("record NodeTypeMetaData not found")
+        self.fields = [c["name"] for c in recs[0].get("inner", []) if c.get("kind") == "FieldDecl"]
+        return fn
+
+    def setup(self, I):
+        ctx = I.ctx
+        self.eq = {f: z3.Bool("eq_" + f) for f in self.fields}
+        self.has = {"lhs": z3.Bool("has_lhs"), "rhs": z3.Bool("has_rhs")}
+        self.scalars_equal = z3.Bool("unused")
+        self.name_null = {"lhs": z3.Bool("name_null_lhs"), "rhs": z3.Bool("name_null_rhs")}
+        self.name_empty = {"lhs": z3.Bool("name_empty_lhs"), "rhs": z3.Bool("name_empty_rhs")}
+        self.name_eq = z3.Bool("name_chars_equal")
+        # two non-null names: equal characters => equally empty; both empty => equal
+        ctx.assume(z3.Implies(self.name_eq, self.name_empty["lhs"] == self.name_empty["rhs"]))
+        ctx.assume(z3.Implies(z3.And(self.name_empty["lhs"], self.name_empty["rhs"]), self.name_eq))
+        return None, {"lhs": MetaObj(self, "lhs"), "rhs": MetaObj(self, "rhs")}
+
+    def ctor_handler(self, qt, node):
+        if "string_view" in qt:
+            def mk(I, args, n):
+                v = I.ctx.rv(args[0])
+                if isinstance(v, NameView):
+                    return v
+                if isinstance(v, MetaField) and v.fname == "display_name":
+                    return NameView(self, v.side)
+                if z3.is_expr(v) and z3.is_int_value(v) and v.as_long() == self.string_id(""):
+                    return NameView(self, None)
+                raise Gap("string_view of %r" % (v,))
+            return mk
+        return Kernel.ctor_handler(self, qt, node)
+
+    def function_handler(self, name, node, callee_node):
+        if name == "endpoint_schema_equivalent":
+            def f(I, a, n):
+                l, r = I.ctx.rv(a[0]), I.ctx.rv(a[1])
+                if not (isinstance(l, FieldTok) and isinstance(r, FieldTok) and l.fname == r.fname and l.side != r.side):
+                    raise Gap("endpoint_schema_equivalent of %r, %r" % (l, r))
+                return self.eq[l.fname]          # callee contract: EndpointSchemaEquivalent below
+            return f
+        return Kernel.function_handler(self, name, node, callee_node)
+
+    def post(self, I, ret):
+        ctx = I.ctx
+        if "display_name" not in self.eq:
+            raise Gap("NodeTypeMetaData has no display_name member any more")
+        nl, nr = self.name_null["lhs"], self.name_null["rhs"]
+        names = z3.If(nl, z3.If(nr, True, self.name_empty["rhs"]), z3.If(nr, self.name_empty["lhs"], self.name_eq))
+        others = [self.eq[f] for f in self.fields if f != "display_name" and f not in SCHEMA_IDENTITY_MEMBERS]
+        ctx.oblige("ensures.equivalent=>every-descriptor-member-agrees[C06 nodes that differ in node type or arguments always remain distinct]",
+                   z3.Implies(ret, z3.And(names, *others)), kind="post-normal")
+        ctx.oblige("ensures.every-member-agrees=>equivalent[C06 equal descriptors share one canonical type]",
+                   z3.Implies(z3.And(names, *others), ret), kind="post-normal")
+
+
+class EndpointObj(Obj):
+    cls = "TSEndpointSchema"
+
+    def __init__(self, k, side, child=None):
+        Obj.__init__(self, name="endpoint_" + side)
+        self.k, self.side, self.child = k, side, child
+
+    def _top(self):
+        if self.child is not None:
+            raise Gap("attribute of a child endpoint read outside the recursive call")
+
+    def m_empty(self, I, a, n): self._top(); return self.k.empty[self.side]
+    def m_role(self, I, a, n): self._top(); return self.k.role[self.side]
+    def m_schema(self, I, a, n): self._top(); return self.k.schema[self.side]
+    def m_child_count(self, I, a, n): self._top(); return self.k.count[self.side]
+
+    def m_child(self, I, a, n):
+        self._top()
+        return EndpointObj(self.k, self.side, child=I.ctx.rv(a[0]))
+
+
+class EndpointSchemaEquivalent(Kernel):
+    name = "node.cpp:NodeRuntimeRegistry::endpoint_schema_equivalent"
+    tu = TU_NODE
+    filter = "NodeRuntimeRegistry"
+    cls = "NodeRuntimeRegistry"
+    fn_name = "endpoint_schema_equivalent"
+    property_ids = ("C06",)
+    scope = {"lo": 0, "hi": 3}
+    title = "endpoint_schema_equivalent: role, schema and every child of two output endpoint descriptors agree (structural induction)"
+
+    def setup(self, I):
+        ctx = I.ctx
+        self.empty = {s: z3.Bool("empty_" + s) for s in ("lhs", "rhs")}
+        self.role = {s: z3.Int("role_" + s) for s in ("lhs", "rhs")}
+        self.schema = {s: z3.Int("schema_" + s) for s in ("lhs", "rhs")}
+        self.count = {s: z3.Int("count_" + s) for s in ("lhs", "rhs")}
+        self.child_equiv = z3.Array("child_equivalent", I_, B_)     # induction hypothesis: the recursive call's answer
+        ctx.assume(z3.And(self.count["lhs"] >= 0, self.count["rhs"] >= 0))
+        return None, {"lhs": EndpointObj(self, "lhs"), "rhs": EndpointObj(self, "rhs")}
+
+    def function_handler(self, name, node, callee_node):
+        if name == "endpoint_schema_equivalent":
+            def rec(I, a, n):
+                l, r = I.ctx.rv(a[0]), I.ctx.rv(a[1])
+                ok = isinstance(l, EndpointObj) and isinstance(r, EndpointObj) and l.child is not None and r.child is not None \
+                    and l.side != r.side
+                if not ok:
+                    raise Gap("recursive call on something that is not a pair of child endpoints")
+                I.ctx.oblige("callee-pre.children-compared-pairwise-at-the-same-index", l.child == r.child, kind="callee-pre")
+                return self.child_equiv[l.child]
+            return rec
+        return Kernel.function_handler(self, name, node, callee_node)
+
+    def inv(self, I, ctx):
+        idx = ctx.rv(self.local(I, "index"))
+        yield "children-below-the-cursor-are-equivalent", z3.And(
+            idx >= 0, idx <= self.count["lhs"],
+            z3.ForAll([qk], z3.Implies(z3.And(qk >= 0, qk < idx), self.child_equiv[qk])))
+
+    @property
+    def loops(self):
+        return {0: LoopSpec(self.inv, lambda I, ctx: [])}
+
+    def post(self, I, ret):
+        ctx = I.ctx
+        el, er = self.empty["lhs"], self.empty["rhs"]
+        spec = z3.If(z3.Or(el, er), el == er, z3.And(
+            self.role["lhs"] == self.role["rhs"], self.schema["lhs"] == self.schema["rhs"], self.count["lhs"] == self.count["rhs"],
+            z3.ForAll([qk], z3.Implies(z3.And(qk >= 0, qk < self.count["lhs"]), self.child_equiv[qk]))))
+        ctx.oblige("ensures.result<=>role,schema,child-count-and-every-child-agree[C06]", ret == spec, kind="post-normal")
+
+
+KERNELS += [SchemaEquivalent, EndpointSchemaEquivalent]
